@@ -104,7 +104,7 @@ func runC09(m *Sim) {
 	stored := map[uint32]uint32{} // slot -> first non-zero stored value observed
 	slotsSeen := map[uint32]bool{}
 	checkStored := func(site string) {
-		for s := range slotsSeen {
+		for _, s := range mapKeysU32(slotsSeen) {
 			v := cl.HistoryValue(s)
 			if old, ok := stored[s]; ok {
 				if v != old {
@@ -311,7 +311,8 @@ func runC09(m *Sim) {
 		if h := header(); h != origin {
 			m.Fail("C09.store", "misplaced", "saving timeslot %d (origin %d, value %d) overwrote the history origin: it now reads %d", s, origin, v, h)
 		}
-		for os, ov := range model {
+		for _, os := range mapKeysU32(model) {
+			ov := model[os]
 			got, lerr := cl.C.VerifLoadReading(os)
 			if lerr != nil || got != ov {
 				m.Fail("C09.store", "misplaced", "after saving timeslot %d (value %d) the reading of timeslot %d reads (%d, %v) instead of %d", s, v, os, got, lerr, ov)
